@@ -543,12 +543,13 @@ fn run_rules(tier: Tier, rep: &Report, budget: &Budget) {
                 let asg: Vec<(Var, u32)> = spec.vars.iter().zip(vals).map(|((v, _), x)| (*v, *x)).collect();
                 *c.entry("instances".into()).or_default() += 1;
                 *c.entry(format!("instances:{name}")).or_default() += 1;
+                // every generated instance is a case: its side condition is evaluated by the subject
+                *c.entry("evaluations".into()).or_default() += 1;
                 if !r.eval_condition(&asg) {
                     *c.entry(format!("cond_false:{name}")).or_default() += 1;
                     continue;
                 }
                 *c.entry(format!("cond_true:{name}")).or_default() += 1;
-                *c.entry("evaluations".into()).or_default() += 1;
                 match check_instance(r, &spec, &asg) {
                     Outcome::Holds(nontrivial, n) => {
                         *c.entry("operand_valuations".into()).or_default() += n;
